@@ -165,6 +165,8 @@ type Sim struct {
 	NextPower map[int64][]int64 // validator powers in force from height h on (validator-set changes applied by EndBlock of h-1)
 	Live     bool // real tickers and receiveRoutines (trace-recording mode)
 	PeerIdx  map[string]int // live stack mode: p2p peer key -> validator index
+	bootRealTicker bool
+	ProbeTicks int          // RealStartProbe: number of ScheduleTimeout calls of the stepped restart
 	LiveCutSeq uint64       // live stack mode with a restart: events after this sequence number are not validated
 	ByzActive bool // live mode: Byzantine validators send equivocating messages
 	LiveScale int // timeout scale in ms (propose = 6x, prevote/precommit = 3x, commit = 2x)
@@ -327,7 +329,7 @@ func (s *Sim) boot(n *Node, first bool) error {
 	}
 	cs.SetPrivValidator(n.PrivVal)
 	cs.SetEventSwitch(evsw)
-	if !s.Live {
+	if !s.Live && !s.bootRealTicker {
 		cs.SetTimeoutTicker(n.Ticker)
 	}
 	st.SetBlockExecutable(simExec{s})
@@ -850,7 +852,7 @@ func (s *Sim) Drain(height int64, maxRounds int) (int, error) {
 // RealStartProbe clones node i's directory as it is on disk, starts a REAL ConsensusState on the clone with the real
 // OnStart (receiveRoutine running), waits until it is quiescent, and returns its projection together with the
 // projection of a second clone restarted through the synchronous shim path and drained.  Both must agree.
-func (s *Sim) RealStartProbe(i int) (real, sync map[string]interface{}, err error) {
+func (s *Sim) RealStartProbe(i int, realTicker bool) (real, sync map[string]interface{}, err error) {
 	src := s.Nodes[i].Dir
 	mk := func(tag string) (*Node, error) {
 		dst := filepath.Join(s.Dir, fmt.Sprintf("probe-%s-%d", tag, i))
@@ -879,10 +881,13 @@ func (s *Sim) RealStartProbe(i int) (real, sync map[string]interface{}, err erro
 		s.after(n1)
 	}
 	sync = normNew(s.SpecState(i)).(map[string]interface{})
+	s.ProbeTicks = len(n1.Ticker.Calls) // timeouts scheduled while the WAL of the height was replayed
 	s.shutdown(n1)
 	os.RemoveAll(n1.Dir)
 	// real path
+	s.bootRealTicker = realTicker // the real timeoutTicker (own goroutine, bounded tick queue) instead of the stepping ticker
 	n2, err := mk("real")
+	s.bootRealTicker = false
 	if err != nil {
 		return nil, sync, err
 	}
